@@ -629,3 +629,27 @@ theorem spans_text_eq_extractText (s : Sess) (clean : Bool) :
   exact mapperText_eq_extractText clean s.doc
 
 end Adeu.Doc
+
+namespace Adeu.Doc
+open Adeu
+
+/-! ### where a searched edit lands -/
+
+/-- A target that is an exact piece of the raw text and does not touch deleted text is located at its first
+occurrence in the raw view, with its own length — before any accepted-view or non-literal lookup. -/
+theorem locate_exact_raw (s : Sess) (e : HEdit) (i : Nat)
+    (h : Markup.find e.target (ospansText (s.spans false)) = some i)
+    (hd : touchesDeletion (s.spans false) i (i + e.target.length) = false) :
+    locate s e = some ⟨false, i, e.target.length⟩ := by
+  simp [locate, findMatchIndex, h, hd]
+
+/-- A target that is not an exact piece of the raw text (it runs across deleted text) but is one of the
+accepted text is located there — before any non-literal lookup in either view. -/
+theorem locate_exact_clean (s : Sess) (e : HEdit) (i : Nat)
+    (h1 : Markup.find e.target (ospansText (s.spans false)) = none)
+    (h2 : Markup.find (Markup.replaceSmart e.target) (Markup.replaceSmart (ospansText (s.spans false))) = none)
+    (h : Markup.find e.target (ospansText (s.spans true)) = some i) :
+    locate s e = some ⟨true, i, e.target.length⟩ := by
+  simp [locate, findMatchIndex, h1, h2, h]
+
+end Adeu.Doc
